@@ -37,7 +37,8 @@ def oracle_cases(tier, rng):
                 for kind in ('gauss', 'zero', 'spike'):
                     for hw in [(8, 8), (16, 12), (6, 10), (7, 9), (15, 16)]:
                         yield dict(layer=1, check='ref', biort=b, qshift=q, colour=colour, bias=bias, kind=kind, H=hw[0], W=hw[1], seed=int(rng.integers(1 << 30)))
-                    for hw in [(8, 8), (16, 24)]:
+                    # sizes = 7 mod 8 need ONE extra row/column: there the extension must be the reference's own odd-size rule (repeat the last one)
+                    for hw in [(8, 8), (16, 24)] + ([(7, 8), (8, 15), (15, 7)] if kind == 'gauss' and bias == 1e-2 else []):
                         if b in ('near_sym_a', 'near_sym_b_bp'):
                             yield dict(layer=2, check='ref', biort=b, qshift=q, colour=colour, bias=bias, kind=kind, H=hw[0], W=hw[1], seed=int(rng.integers(1 << 30)))
     for H in range(2, 20 if tier == 'quick' else 40):
@@ -108,6 +109,10 @@ def oracle_run(cfg):
         ok, msg = tol_close(Z, want, sc)
         return None if ok else dict(detail='differs from reference DTCWT + formulas: ' + msg)
     # second order: two-scale cascade from the reference package
+    if H % 8 == 7: X = np.concatenate([X, X[..., -1:, :]], axis=-2)
+    if W % 8 == 7: X = np.concatenate([X, X[..., :, -1:]], axis=-1)
+    if X.shape[-2] % 8 or X.shape[-1] % 8:
+        return None
     N = X.shape[0]
     lo2, hs2 = dtfam.ref_forward(X, cfg['biort'], cfg['qshift'], 2)
     s0 = 0.25 * (lo2[..., 0::2, 0::2] + lo2[..., 0::2, 1::2] + lo2[..., 1::2, 0::2] + lo2[..., 1::2, 1::2])
